@@ -153,7 +153,7 @@ theorem tryAsSpdcG_ok_inv {g : Bool} {cfg : Config ℝ} {ext : Ext ℝ} {s : Set
             pumpAveragePower := cfg.pump.averagePowerMw * 1.0,
             pumpSpectrumThreshold := cfg.pump.spectrumThreshold.getD 1.0e-2, pp := pp,
             signalWaistPos := swp, idlerWaistPos := iwp,
-            deff := cfg.deffPmPerVolt * pmPerVolt } := by
+            deff := toDeff cfg.deffPmPerVolt } := by
   unfold tryAsSpdcG at h
   simp only [bind_eq_ok] at h
   obtain ⟨signal, hsig, h⟩ := h
